@@ -201,9 +201,12 @@ func (d *decoder) readFloat64() float64 {
 		return 0
 	}
 	buf := d.buffer()
-	_, d.err = io.ReadFull(d.r, buf)
+	if _, d.err = io.ReadFull(d.r, buf); d.err != nil {
+		// buf may be partly filled: do not make a value from it
+		return 0
+	}
 	x := math.Float64frombits(binary.LittleEndian.Uint64(buf))
-	if d.err == nil && (math.IsNaN(x) || math.IsInf(x, 0)) {
+	if math.IsNaN(x) || math.IsInf(x, 0) {
 		// No valid encoding contains a non-finite coordinate, bound or radius,
 		// and a decoded value that holds one panics in the exact predicates
 		// (big.Float cannot represent NaN) as soon as it is queried.
